@@ -7,7 +7,7 @@ import kernel_part
 
 # C02b: the table of constructors (which operator hands which kind of subscriber upstream) regenerated from the source is the
 # premise of the concurrent clause ("observables built with the default/safe constructors")
-LEAN_MODULES = ['C01'] + kernel_part.LEAN_MODULES + ['C02b', 'C10']
+LEAN_MODULES = ['C01'] + kernel_part.LEAN_MODULES + ['C02b', 'C10', 'C07']
 
 MANIFEST = dict(
     text="Proved in Lean for every raw producer script (legal or not): the subscriber/observer gate delivers a Grammar-conforming prefix and delivered++dropped = raw "
@@ -91,6 +91,12 @@ def check(ctx):
     rows = [r for r in R.run_kind(ctx, 'nilobs', shards=2) if ' ctor=' in r[0] and ' faults=- ' in r[0] + ' ']
     R.compare(ctx, rows, proj_all, 'C01 partial observers: what the one callback and the dropped-notification hook saw', oracle=oracle_grammar, oracle_is_property=True,
               nontrivial=lambda c, gd: True, max_report=2)
+    # a hand-written observer (no status word of its own) subscribed DIRECTLY to an observable whose subscribe function emits and then
+    # panics - also after its own terminal: it sees what the observable's subscriber lets through, i.e. a grammatical trace; the error made
+    # from a panic that comes after the terminal is refused (dropped hook), not delivered (fault semantics of RoProps/C07: subscribe_fn_panic)
+    rows = R.run_kind(ctx, 'fault', extra=['-only', 'RawDirect'])
+    R.compare(ctx, rows, proj_grammar, 'C01 hand-written observer subscribed directly to an observable whose subscribe function panics', oracle=oracle_grammar,
+              oracle_is_property=True, nontrivial=lambda c, gd: gd.get('trace', '-') != '-', max_report=2)
     # subjects as producers' ends: every subscriber of a subject - also one that arrives after the subject has terminated and after illegal
     # late notifications (a Complete after an Error, values after a terminal) - sees values, at most one terminal, then silence, and the
     # late notifications go to the dropped hook (step functions and their theorems: RoProps/C10; C01 reads the kinds and the drops)
